@@ -212,11 +212,46 @@ fn rust_ident(snake_name: &str) -> String {
     }
 }
 
+/// A copy of the interface whose custom type and method names carry a suffix, so that several interfaces can
+/// be generated into ONE module (`generate_interfaces`) without their types / output structs colliding.
+fn group_copy(i: &GIface, j: usize) -> GIface {
+    fn ty(t: &mut GTy, sfx: &str) {
+        match t {
+            GTy::Optional(i) | GTy::Array(i) | GTy::Map(i) => ty(i, sfx),
+            GTy::Custom(n) => n.push_str(sfx),
+            GTy::Struct(fs) => fs.iter_mut().for_each(|f| ty(&mut f.ty, sfx)),
+            _ => {}
+        }
+    }
+    let sfx = format!("X{j}");
+    let mut c = i.clone();
+    for m in &mut c.members {
+        match m {
+            GMember::Type { name, body, .. } => {
+                name.push_str(&sfx);
+                if let GBody::Struct(fs) = body {
+                    fs.iter_mut().for_each(|f| ty(&mut f.ty, &sfx));
+                }
+            }
+            GMember::Method { name, inputs, outputs, .. } => {
+                name.push_str(&sfx);
+                inputs.iter_mut().chain(outputs.iter_mut()).for_each(|f| ty(&mut f.ty, &sfx));
+            }
+            GMember::Error { fields, .. } => fields.iter_mut().for_each(|f| ty(&mut f.ty, &sfx)),
+        }
+    }
+    c
+}
+
 fn driver(i: &GIface, k: usize) -> String {
+    driver_in(i, k, &format!("m{k}"))
+}
+
+fn driver_in(i: &GIface, k: usize, module: &str) -> String {
     let mut s = String::new();
     let w = &mut s;
-    writeln!(w, "//! generated: driver for interface {} (module m{k})", i.name).unwrap();
-    writeln!(w, "#![allow(unused, non_snake_case, clippy::all)]\nuse crate::prelude::*;\nuse super::m{k}::*;\n").unwrap();
+    writeln!(w, "//! generated: driver for interface {} (module {module})", i.name).unwrap();
+    writeln!(w, "#![allow(unused, non_snake_case, clippy::all)]\nuse crate::prelude::*;\nuse super::{module}::*;\n").unwrap();
     writeln!(w, "pub const IDL: &str = {:?};\n", render(i, &mut Layout { rng: &mut Rng::new(1), wild: false })).unwrap();
     writeln!(w, "fn types() -> Types {{\n    let mut t = Types::new();").unwrap();
     for m in &i.members {
@@ -241,7 +276,7 @@ fn driver(i: &GIface, k: usize) -> String {
         let f = format!("method_{mi}");
         fns.push(f.clone());
         writeln!(w, "pub fn {f}(rep: &mut Report, rng: &mut Rng) {{").unwrap();
-        writeln!(w, "    let ctx = {:?};", format!("interface {} method {} (module m{k})", i.name, name)).unwrap();
+        writeln!(w, "    let ctx = {:?};", format!("interface {} method {} (module {module})", i.name, name)).unwrap();
         writeln!(w, "    let types = types();\n    let mut params = Map::new();").unwrap();
         for (ai, a) in inputs.iter().enumerate() {
             writeln!(w, "    let a{ai} = gen_value(&{}, &types, rng);", ty_expr(&a.ty)).unwrap();
@@ -359,6 +394,38 @@ fn main() {
         writeln!(modrs, "pub mod m{k};\n#[cfg(feature = \"drivers\")]\npub mod d{k};").unwrap();
         writeln!(runs, "    d{k}::all(rep, rng);").unwrap();
         count += 1;
+    }
+    // several interfaces generated into one module, as the build-script / multi-file CLI use does
+    let ngroups = if size == "quick" { 5 } else { 30 };
+    let mut rngg = Rng::derive(seed, 1516);
+    for g in 0..ngroups {
+        let gk = 100_000 + g; // module number of the group (also the exclusion key)
+        let members: Vec<GIface> = (0..rngg.range(2, 4)).map(|j| group_copy(&gen_iface15(&mut rngg, 10_000 + g * 10 + j), j)).collect();
+        let texts: Vec<String> = members.iter().map(|t| render(t, &mut Layout { rng: &mut Rng::new(1), wild: false })).collect();
+        let parsed: Vec<_> = texts.iter().filter_map(|t| zlink::idl::Interface::try_from(t.as_str()).ok()).collect();
+        if parsed.len() != members.len() {
+            continue;
+        }
+        let code = match zlink_codegen::generate_interfaces(&parsed) {
+            Ok(c) => c,
+            Err(e) => {
+                failed_codegen.push(format!("group {g}: {e}"));
+                continue;
+            }
+        };
+        std::fs::write(out.join(format!("m{gk}.rs")), format!("#![allow(unused, non_camel_case_types, non_snake_case, clippy::all)]\n{code}")).unwrap();
+        for (j, t) in members.iter().enumerate() {
+            std::fs::write(out.join(format!("d{gk}_{j}.rs")), driver_in(t, gk, &format!("m{gk}"))).unwrap();
+        }
+        if exclude.contains(&gk) {
+            continue;
+        }
+        writeln!(modrs, "pub mod m{gk};").unwrap();
+        for j in 0..members.len() {
+            writeln!(modrs, "#[cfg(feature = \"drivers\")]\npub mod d{gk}_{j};").unwrap();
+            writeln!(runs, "    d{gk}_{j}::all(rep, rng);").unwrap();
+        }
+        count += members.len();
     }
     writeln!(modrs, "#[cfg(feature = \"drivers\")]\npub fn run_all(rep: &mut vnet::Report, rng: &mut vnet::Rng) {{\n{runs}}}").unwrap();
     writeln!(modrs, "pub const N_INTERFACES: usize = {count};\npub const CORPUS_SEED: u64 = {seed};\npub const CORPUS_SIZE: &str = {size:?};").unwrap();
